@@ -262,4 +262,4 @@ def _obligations():
 
 
 def obligations():
-    return _obligations() + [effects_obligation("C19")]
+    return _obligations() + [labels_obligation("C19"), effects_obligation("C19")]
